@@ -323,7 +323,7 @@ pub fn canon_key(fs: &Fs, extra: &[u8]) -> [u8; 16]
         if let Node::File(f) = n
         {
             let next = rank.len() as u32;
-            rank.entry(f.mtime).or_insert(next);
+            rank.entry(crate::memsys::stamp_micros(f.mtime)).or_insert(next);
         }
     }
     if let Some(Some(t)) = &table
@@ -353,7 +353,7 @@ pub fn canon_key(fs: &Fs, extra: &[u8]) -> [u8; 16]
             {
                 put(b"F");
                 put(&f.data);
-                put(&rank[&f.mtime].to_le_bytes());
+                put(&rank[&crate::memsys::stamp_micros(f.mtime)].to_le_bytes());
                 put(&[f.exec as u8]);
             },
         }
